@@ -382,13 +382,39 @@ pub mod realkeys {
         Ok(back)
     }
 
+    /// test material of the harness itself (not of the repository)
+    pub fn data_dir() -> String {
+        std::env::var("VERIF_DATA").unwrap_or_else(|_| "/verif/harness/data".to_string())
+    }
+
     fn import(alg: u8, tag: u16) -> Result<RealKey, String> {
-        let base = format!("{}/test-data/dnssec-keys/Ktest.+{:03}+{:05}", repo_dir(), alg, tag);
+        import_base(alg, &format!("{}/test-data/dnssec-keys/Ktest.+{:03}+{:05}", repo_dir(), alg, tag), None)
+    }
+
+    /// A 4096 bit RSA key (the largest RFC 3110 allows; `openssl genrsa
+    /// 4096`, BIND format) as RSASHA256 and - the same numbers under the
+    /// other algorithm number - as RSASHA512.
+    fn import_big(alg: u8) -> Result<RealKey, String> {
+        import_base(alg, &format!("{}/Krsa4096.+008", data_dir()), Some(alg))
+    }
+
+    fn import_base(alg: u8, base: &str, relabel: Option<u8>) -> Result<RealKey, String> {
         let sec_text = std::fs::read_to_string(format!("{base}.private")).map_err(|e| format!("{base}: {e}"))?;
+        let sec_text = match relabel {
+            Some(10) => sec_text.replace("Algorithm: 8 (RSASHA256)", "Algorithm: 10 (RSASHA512)"),
+            _ => sec_text,
+        };
         let direct = SecretKeyBytes::parse_from_bind(&sec_text).map_err(|e| format!("{base}: {e}"))?;
         let pub_text = std::fs::read_to_string(format!("{base}.key")).map_err(|e| format!("{base}: {e}"))?;
         let rec = domain::dnssec::common::parse_from_bind::<Vec<u8>>(&pub_text).map_err(|e| format!("{base}: {e}"))?;
-        let public = rec.data().clone();
+        let public = match relabel {
+            Some(a) => Dnskey::new(rec.data().flags(), 3, SecurityAlgorithm::from_int(a), rec.data().public_key().clone())
+                .map_err(|e| format!("{base}: {e}"))?,
+            None => rec.data().clone(),
+        };
+        if direct.algorithm().to_int() != alg || public.algorithm().to_int() != alg {
+            return Err(format!("{base}: not a key of algorithm {alg}"));
+        }
         // the public key is the private key's modulus and exponent in the RFC 3110 layout
         let (e, n) = match &direct {
             SecretKeyBytes::RsaSha256(s) | SecretKeyBytes::RsaSha512(s) => (s.e.to_vec(), s.n.to_vec()),
@@ -421,7 +447,17 @@ pub mod realkeys {
                 out.push(k);
             }
         }
+        // (after the others: `find(|k| k.alg == ..)` keeps meaning the 2048 bit keys)
+        out.push(import_big(8)?);
+        out.push(import_big(10)?);
         Ok(out)
+    }
+
+    /// the real key standing in for a key of the model: same algorithm and,
+    /// for RSA, a public key field of the same length (i.e. the same size)
+    pub fn for_model<'a>(reals: &'a [RealKey], alg: u8, publen: usize) -> Option<&'a RealKey> {
+        let rsa = matches!(alg, 1 | 5 | 7 | 8 | 10);
+        reals.iter().find(|k| k.alg == alg && (!rsa || k.public.public_key().len() == publen))
     }
 
     impl RealKey {
@@ -438,6 +474,128 @@ pub mod realkeys {
     pub fn jkey(k: &Dnskey<Vec<u8>>) -> Value {
         json!({"flags": k.flags(), "proto": k.protocol(), "alg": k.algorithm().to_int(),
                "pub": jbytes(k.public_key())})
+    }
+}
+
+//------------ the signer's entry points on a collection (C12, MC_SignerInput.tla) ----
+
+pub mod sinput {
+    use super::*;
+    use domain::base::iana::Nsec3HashAlgorithm;
+    use domain::dnssec::sign::denial::config::DenialConfig;
+    use domain::dnssec::sign::denial::nsec::GenerateNsecConfig;
+    use domain::dnssec::sign::denial::nsec3::GenerateNsec3Config;
+    use domain::dnssec::sign::keys::signingkey::SigningKey;
+    use domain::dnssec::sign::records::{DefaultSorter, Rrset, SortedRecords};
+    use domain::dnssec::sign::signatures::rrsigs::{
+        sign_rrset, sign_sorted_rrset_in, sign_sorted_zone_records, GenerateRrsigConfig,
+    };
+    use domain::dnssec::sign::traits::{SignableZone, SignableZoneInPlace};
+    use domain::dnssec::sign::SigningConfig;
+    use domain::dnssec::validator::base::RrsigExt;
+    use domain::rdata::dnssec::Timestamp;
+    use domain::rdata::nsec3::Nsec3Salt;
+    use domain::rdata::Nsec3param;
+
+    pub type Coll = SortedRecords<SName, SData>;
+
+    pub const ENTRIES: [&str; 10] = ["rrsets_sorted_in", "rrsets_sign_rrset", "slice_sign_rrset", "zone_records",
+                                     "zone_present_inplace", "zone_present_into", "zone_nsec_inplace", "zone_nsec_into",
+                                     "zone_nsec3_inplace", "zone_nsec3_into"];
+
+    pub fn denial_of(e: &str) -> DenialConfig<Bytes, DefaultSorter> {
+        if e.contains("nsec3") {
+            let salt = Nsec3Salt::from_octets(Bytes::from_static(b"\xab\xcd")).expect("salt");
+            let params = Nsec3param::new(Nsec3HashAlgorithm::SHA1, 0, 1, salt);
+            DenialConfig::Nsec3(GenerateNsec3Config::<Bytes, DefaultSorter>::new(params))
+        } else if e.contains("nsec") {
+            DenialConfig::Nsec(GenerateNsecConfig::new())
+        } else {
+            DenialConfig::AlreadyPresent
+        }
+    }
+
+    pub fn rrsig_rr(r: Record<SName, SRrsig>) -> SRecord {
+        Record::new(r.owner().clone(), r.class(), r.ttl(), ZoneRecordData::Rrsig(r.data().clone()))
+    }
+
+    /// One entry point of the signer on the collection the ops build.  Returns
+    /// every record afterwards: the zone and what signing generated.
+    pub fn run_entry<K: SignRaw + std::fmt::Debug>(
+        e: &str, mut coll: Coll, slices: &[Vec<SRecord>], apex: &SName,
+        key: &SigningKey<Bytes, K>, inc: Timestamp, exp: Timestamp,
+    ) -> Result<Vec<SRecord>, String> {
+        let mut all: Vec<SRecord> = coll.iter().cloned().collect();
+        match e {
+            "rrsets_sorted_in" => {
+                let mut scratch = vec![];
+                for rrset in coll.rrsets() {
+                    let rr = sign_sorted_rrset_in(key, &rrset, inc, exp, &mut scratch).map_err(|e| format!("{e}"))?;
+                    all.push(rrsig_rr(rr));
+                }
+            }
+            "rrsets_sign_rrset" => {
+                for rrset in coll.rrsets() {
+                    all.push(rrsig_rr(sign_rrset(key, &rrset, inc, exp).map_err(|e| format!("{e}"))?));
+                }
+            }
+            "slice_sign_rrset" => {
+                for sl in slices {
+                    let rrset = Rrset::new_from_owned(sl).map_err(|e| format!("{e}"))?;
+                    all.push(rrsig_rr(sign_rrset(key, &rrset, inc, exp).map_err(|e| format!("{e}"))?));
+                }
+            }
+            "zone_records" => {
+                let cfg = GenerateRrsigConfig::new(inc, exp);
+                let sigs = sign_sorted_zone_records(apex, coll.owner_rrs(), &[key], &cfg).map_err(|e| format!("{e}"))?;
+                all.extend(sigs.into_iter().map(rrsig_rr));
+            }
+            _ => {
+                let cfg: SigningConfig<Bytes, DefaultSorter> = SigningConfig::new(denial_of(e), inc, exp);
+                if e.ends_with("_into") {
+                    let mut out: Coll = SortedRecords::default();
+                    SignableZone::sign_zone(&coll, apex, &cfg, &[key], &mut out).map_err(|e| format!("{e}"))?;
+                    all.extend(out.iter().cloned());
+                } else {
+                    SignableZoneInPlace::sign_zone(&mut coll, apex, &cfg, &[key]).map_err(|e| format!("{e}"))?;
+                    all = coll.iter().cloned().collect();
+                }
+            }
+        }
+        Ok(all)
+    }
+
+    /// every RRSIG among the records verifies over the RRset it covers, presented
+    /// as stored, reversed and rotated
+    pub fn all_verify(all: &[SRecord], dnskey: &Dnskey<Vec<u8>>) -> Result<usize, String> {
+        let mut n = 0;
+        for r in all {
+            let ZoneRecordData::Rrsig(sig) = r.data() else { continue };
+            let rrset: Vec<SRecord> = all.iter()
+                .filter(|x| x.rtype() == sig.type_covered() && x.owner().name_eq(r.owner()) && x.class() == r.class())
+                .cloned().collect();
+            if rrset.is_empty() {
+                return Err(format!("RRSIG {} {} covers nothing", r.owner(), sig.type_covered()));
+            }
+            let mut orders = vec![rrset.clone()];
+            let mut rev = rrset.clone();
+            rev.reverse();
+            orders.push(rev);
+            let mut rot = rrset.clone();
+            rot.rotate_left(1);
+            orders.push(rot);
+            for mut o in orders {
+                let mut b: Vec<u8> = vec![];
+                if sig.signed_data(&mut b, &mut o[..]).is_err() {
+                    return Err(format!("signed_data {} {}", r.owner(), sig.type_covered()));
+                }
+                if sig.verify_signed_data(dnskey, &b).is_err() {
+                    return Err(format!("RRSIG {} {} does not verify", r.owner(), sig.type_covered()));
+                }
+            }
+            n += 1;
+        }
+        Ok(n)
     }
 }
 
